@@ -312,7 +312,7 @@ def run(ctx, facts):
              floor_note="HashMap::check_guard")
     ctx.rule("G1", "every exported function with a &Guard parameter uses it only after/through a guard check (least fixpoint over callees)",
              floor=25, floor_note="16 HashMap + 13 HashSet guard-taking methods on the pinned tree, counted 2026-10")
-    ctx.rule("G2", "a struct that can be built around an unchecked guard hands that field only to safe functions", floor=20,
+    ctx.rule("G2", "a struct that can be built around an unchecked guard hands that field only to safe functions", floor=15,
              floor_note="HashMapRef/HashSetRef methods")
     checks = find_guard_checks(facts)
     for c in checks:
